@@ -4,7 +4,7 @@ from .common import emit_struct, emit_method, import_method, str_shims
 from .u6_root import prelude_types
 
 NAME = 'u7_index'
-PROPS = ['C08', 'C05', 'C07', 'C04']
+PROPS = ['C08', 'C05', 'C07', 'C04', 'C14']
 T = 'src/types.rs'
 
 
